@@ -207,6 +207,13 @@ fn hook<T>(name: &'static str, ok: T) -> darling::Result<T> {
     match MODE.with(|m| m.get()) {
         0 => Ok(ok),
         1 => Err(darling::Error::custom("hook-error")),
+        // a bundle that has no span of its own although each member has one (what a derived
+        // receiver with two rejected fields returns): the bundle gets the item's span, the
+        // members keep theirs
+        3 => {
+            let sp = PRESET.with(|p| p.borrow().unwrap());
+            Err(darling::Error::multiple(vec![darling::Error::custom("hook-error-1").with_span(&sp), darling::Error::custom("hook-error-2").with_span(&sp)]))
+        }
         _ => {
             let sp = PRESET.with(|p| p.borrow().unwrap());
             Err(darling::Error::custom("hook-error").with_span(&sp))
@@ -301,6 +308,15 @@ fn routing_sweep(t: &mut Tally) {
         ("v".into(), Form::Word),
         ("v()".into(), Form::List),
         ("v(a, b = 1)".into(), Form::List),
+        // a list is a list whatever it holds: one literal, one word, one name-value
+        ("v(\"s\")".into(), Form::List),
+        ("v(5)".into(), Form::List),
+        ("v(true)".into(), Form::List),
+        ("v(\"s\",)".into(), Form::List),
+        ("v(\"a\", \"b\")".into(), Form::List),
+        ("v(a)".into(), Form::List),
+        ("v(a = 1)".into(), Form::List),
+        ("v(v)".into(), Form::List),
         ("v = true".into(), Form::NvLit(LitK::Bool, 0)),
         ("v = \"s\"".into(), Form::NvLit(LitK::Str, 0)),
         ("v = 'c'".into(), Form::NvLit(LitK::Char, 0)),
@@ -358,7 +374,7 @@ fn routing_sweep(t: &mut Tally) {
         let preset: proc_macro2::Span = items[1].span();
         PRESET.with(|p| *p.borrow_mut() = Some(preset));
         for (mask, via_meta, via_nested) in &ps {
-            for mode in 0..3u8 {
+            for mode in 0..4u8 {
               for entry in 0..2u8 {
                 // entry 0: from_meta (meta items only); entry 1: from_nested_meta
                 if entry == 0 && !matches!(item, NestedMeta::Meta(_)) {
@@ -395,6 +411,17 @@ fn routing_sweep(t: &mut Tally) {
                             (0, Ok(())) => {}
                             (0, Err(e)) => bad(format!("hook succeeded but the result is Err({e})"), t),
                             (_, Ok(())) => bad("hook failed but the result is Ok".into(), t),
+                            (3, Err(e)) => {
+                                match (e.explicit_span().and_then(vrt::spans::cols), item_cols) {
+                                    (Some(s), Some(i)) if vrt::spans::within(s, i) => {}
+                                    (None, _) => bad("a bundle the hook returned without a span of its own came back without one".into(), t),
+                                    (s, i) => bad(format!("hook bundle came back with span {s:?}, outside the item {i:?}"), t),
+                                }
+                                let members: Vec<_> = e.clone().into_iter().map(|m| m.explicit_span().and_then(vrt::spans::cols)).collect();
+                                if members.len() != 2 || members.iter().any(|m| *m != vrt::spans::cols(preset)) {
+                                    bad(format!("members of the hook's bundle came back with spans {members:?}"), t);
+                                }
+                            }
                             (1, Err(e)) => {
                                 // an unspanned hook error comes back carrying the item's span
                                 match (e.explicit_span().and_then(vrt::spans::cols), item_cols) {
@@ -506,7 +533,7 @@ pub fn main(args: &Args) {
     rep.set("generated_lists", json!(n_lists));
     rep.set("lists_mutated", json!(n_base));
     rep.rule = format!(
-        "parser: every list of 0..{} items over 34 item forms (all literal kinds incl. negative numbers and byte strings; paths incl. `::a::b`, keywords, raw identifiers; name-values with 11 expression forms incl. turbofish / closure commas and `true = 1`; lists nested to depth 3; `a(,)`), with and without a trailing comma, and every single-token mutation (delete, duplicate, insert one of , ; = :: ! -, identifier -> keyword) of {n_base} of them, against an independent recogniser (all segmentations at commas into chunks that are wholly a syn::Lit or a syn::Meta): accept/reject, item count, order, class, token text, print/re-parse identity. routing: 128 probe types (every subset of the seven hooks overridden) x 20 item forms (word, lists, name-value with each literal kind and non-literal expressions, values inside 1-2 invisible groups, bare literal members) x 3 hook behaviours (Ok, unspanned Err, pre-spanned Err) against the documented priority chain: exactly one hook (the outermost overridden on the chain) or a default rejection of the documented kind; errors come back with the item's span unless already spanned. states = token streams / (probe, item, behaviour) triples.",
+        "parser: every list of 0..{} items over 34 item forms (all literal kinds incl. negative numbers and byte strings; paths incl. `::a::b`, keywords, raw identifiers; name-values with 11 expression forms incl. turbofish / closure commas and `true = 1`; lists nested to depth 3; `a(,)`), with and without a trailing comma, and every single-token mutation (delete, duplicate, insert one of , ; = :: ! -, identifier -> keyword) of {n_base} of them, against an independent recogniser (all segmentations at commas into chunks that are wholly a syn::Lit or a syn::Meta): accept/reject, item count, order, class, token text, print/re-parse identity. routing: 128 probe types (every subset of the seven hooks overridden) x 20 item forms (word, lists, name-value with each literal kind and non-literal expressions, values inside 1-2 invisible groups, bare literal members) x 4 hook behaviours (Ok, unspanned Err, pre-spanned Err, unspanned bundle of spanned members) against the documented priority chain: exactly one hook (the outermost overridden on the chain) or a default rejection of the documented kind; errors come back with the item's span unless already spanned. states = token streams / (probe, item, behaviour) triples.",
         if thorough { 3 } else { 2 }
     );
     rep.assumptions = vec!["syn::Lit / syn::Meta parsing of a whole chunk defines what an item is".into()];
